@@ -7,7 +7,7 @@
 (*                                                                         *)
 (* crash.ndjson: for every crash experiment the system calls that          *)
 (* completed, mapped one to one onto the writer actions of Journal.tla     *)
-(* (jhdr, jrec, jcount, dbwrite, startcommit, finalize; torn = the call    *)
+(* (jhdr, jpad, jrec, jcount, dbwrite, startcommit, finalize; torn = call  *)
 (* was cut short), then one "crash" line with what the readers did with    *)
 (* the files left behind:                                                  *)
 (*    sqlittle  "error" | "old" | "new" | "mixed"   fresh handle           *)
@@ -34,18 +34,30 @@ Skip == UNCHANGED jvars
 
 Reset ==
     /\ ph' = "active" /\ jexists' = FALSE /\ jfirstfull' = FALSE /\ segs' = <<>> /\ partial' = FALSE
-    /\ dbnew' = {} /\ dbtorn' = {} /\ dbapp' = {} /\ dead' = FALSE
+    /\ dbnew' = {} /\ dbtorn' = {} /\ dbapp' = {} /\ dead' = FALSE /\ hch' = HdrChunks
 
 \* the abstract state a crash was observed in (for the evidence: which states were really exercised)
 StateClass ==
     <<ph, IF ~jexists THEN "nojournal" ELSE IF segs = <<>> THEN "empty" ELSE IF segs[1].magic THEN "magic" ELSE "nomagic",
       jfirstfull, partial, Class(dbnew, dbtorn, dbapp), Len(segs) > 1>>
 
+\* what a COMPLETED commit (or anything else) left next to a consistent database file: a journal of some length.
+\* e.listed: one of the leftovers the property's second sentence lists (absent, empty, zero-headered, truncated: no
+\* magic) -- the file must be readable; otherwise (a header with magic but less than a sector) only the first sentence
+\* applies
+Leftover(e) ==
+    /\ ph' = IF e.listed THEN "finalized" ELSE "committing"
+    /\ jexists' = e.exists
+    /\ segs' = IF e.magic THEN <<[magic |-> TRUE, nrec |-> 0, recs |-> <<>>]>> ELSE <<>>
+    /\ jfirstfull' = e.full /\ partial' = FALSE
+    /\ dbnew' = Modified /\ dbtorn' = {} /\ dbapp' = Appended /\ dead' = TRUE /\ hch' = HdrChunks
+
 Step ==
     /\ l <= Len(Trace)
     /\ LET e == Trace[l]
        IN  /\ CASE e.ev = "reset"       -> Reset
                 [] e.ev = "jhdr"        -> JHdrWrite(e.torn)
+                [] e.ev = "jpad"        -> JHdrPad(e.torn)
                 [] e.ev = "jrec"        -> JRec(e.p, e.torn)
                 [] e.ev = "jcount"      -> JHdrCount(e.torn)
                 [] e.ev = "dbwrite"     -> DbWrite(e.p, e.torn)
@@ -53,6 +65,7 @@ Step ==
                 [] e.ev = "startcommit" -> StartCommit
                 [] e.ev = "finalize"    -> Finalize
                 [] e.ev = "skip"        -> Skip
+                [] e.ev = "leftover"    -> Leftover(e)
                 [] e.ev = "crash"       -> IF dead THEN Skip ELSE Crash
            /\ IF e.ev = "crash"
                 THEN /\ specbad' = IF SqliteRecovered = e.sqlite THEN specbad ELSE Append(specbad, l)
